@@ -19,11 +19,11 @@ class StaleContract(Exception):
 
 
 class VC:
-    __slots__ = ('name', 'hyps', 'goal', 'kind', 'line', 'func', 'result', 'time', 'model', 'expect', 'mode', 'model_dict', 'quant')
+    __slots__ = ('name', 'hyps', 'goal', 'kind', 'line', 'func', 'result', 'time', 'model', 'expect', 'mode', 'model_dict', 'quant', 'goal_tag', 'drop')
 
     def __init__(self, name, hyps, goal, kind='post', line=0, func='', expect='unsat'):
         self.name = name; self.hyps = list(hyps); self.goal = goal; self.kind = kind; self.line = line
-        self.func = func; self.result = None; self.time = 0.0; self.model = None; self.mode = None; self.model_dict = None; self.quant = True
+        self.func = func; self.result = None; self.time = 0.0; self.model = None; self.mode = None; self.model_dict = None; self.quant = True; self.goal_tag = None; self.drop = ()
         self.expect = expect      # 'unsat' for proof obligations, 'sat' for cover (vacuity) checks
 
 
@@ -36,12 +36,13 @@ class Path:
         self.objs = {}       # oid -> {field: value}   (singleton objects)
         self.ghost = {}      # ghost state
         self.alias = {}      # local name -> (container lvalue ast, index term)   (loop var aliasing a list element)
+        self.tags = {}       # id of an assumed invariant clause in pc -> its name (for hypothesis slicing)
 
     def fork(self):
         p = Path()
         p.env = dict(self.env); p.pc = list(self.pc); p.heap = dict(self.heap); p.has = dict(self.has)
         p.objs = {k: dict(v) for k, v in self.objs.items()}
-        p.ghost = dict(self.ghost); p.alias = dict(self.alias)
+        p.ghost = dict(self.ghost); p.alias = dict(self.alias); p.tags = dict(self.tags)
         return p
 
     def assume(self, t):
